@@ -1,5 +1,5 @@
-import PkVerif.Drv.Common
-/-! `pkmodel-c06`: stub (property not built yet). -/
+import PkVerif.Drv.C05
+/-! `pkmodel-c06`: the same machine as `pkmodel-c05` (the protocol carries `obs` / `obsr`). -/
 namespace Pk.Drv.C06
-def machine : Machine := { σ := Unit, init := (), step := fun s _ => (s, "bad-op") }
+def machine : Machine := Pk.Drv.C05.machine
 end Pk.Drv.C06
